@@ -4,6 +4,7 @@ import (
 	"fmt"
 
 	"verifharness/evid"
+	"verifharness/sessrep"
 )
 
 func sessionCheck(prop, tier, module, mcCfg, dumpCfg string, extraNote string) {
@@ -12,12 +13,31 @@ func sessionCheck(prop, tier, module, mcCfg, dumpCfg string, extraNote string) {
 	gs := dumpEdges(module, dumpCfg)
 	maxEdges := 0
 	st := tourAll(run, gs, maxEdges)
+	// code -> spec: random walks recorded on the real server, validated by TLC
+	var cfgs []sessrep.CfgRec
+	for _, g := range gs {
+		cfgs = append(cfgs, g.Cfg)
+	}
+	perCfg, steps := 25, 40
+	if tier == "thorough" {
+		perCfg, steps = 250, 60
+	}
+	walks := walkAll(run, cfgs, perCfg, steps)
+	vs, err := sessrep.ValidateWalks(run, walks, 1)
+	if err != nil {
+		evid.Inconclusive("trace validation: %v", err)
+	}
+	fmt.Printf("%s: %d recorded walks (%d events) validated by TLC: %d accepted, %d rejected\n", prop, vs.Walks, vs.Events, vs.Accepted, vs.Rejected)
 	fmt.Printf("%s: TLC %d states / %d transitions; replayed %d/%d edges in %d steps over %d connections, %d configurations\n",
 		prop, mc.Distinct, mc.Generated, st.Covered, st.Edges, st.Steps, st.Convs, len(gs))
 	cov := evid.Coverage{
 		"states":                        mc.Distinct,
 		"transitions":                   mc.Generated,
-		"traces_validated_against_impl": st.Convs,
+		"traces_validated_against_impl": st.Convs + vs.Walks,
+		"replayed_conversations":        st.Convs,
+		"recorded_walks_validated":      vs.Walks,
+		"recorded_walk_events":          vs.Events,
+		"recorded_walks_accepted":       vs.Accepted,
 		"edges_in_graph":                st.Edges,
 		"edges_replayed_on_real_server": st.Covered,
 		"conversation_steps":            st.Steps,
